@@ -31,9 +31,7 @@ import (
 func TestMain(m *testing.M) {
 	// the WAL allocates 256 KiB buffers per opened segment; with the default GC target the
 	// collector would run every few cuts
-	if os.Getenv("C13_GOGC") == "" {
-		debug.SetGCPercent(800)
-	}
+	debug.SetGCPercent(800)
 	pbt.RunMain(m)
 }
 
@@ -728,8 +726,8 @@ func gen(t *rapid.T) Case {
 		ExhLimit:    8 << 10,
 	}
 	if pbt.Tier() == "thorough" {
-		c.ExhLimit = 48 << 10
-		c.Budget = 6000
+		c.ExhLimit = 32 << 10
+		c.Budget = 3000
 	}
 	if pbt.Open("C13-F1") {
 		c.Excl = append(c.Excl, "hdr-tail")
@@ -864,7 +862,7 @@ func enumerate() []Case {
 
 func TestCheck(t *testing.T) {
 	s := &pbt.Suite{ID: "C13", Level: "exploration",
-		Rule: "gen: rapid-drawn WAL operation sequences (AppendRecords batches of 1-4 typed records, untyped Append, Rotate, SwitchSegment to a new id, SwitchSegment back to the newest non-empty segment, Sync, Close+Open; record types 0..3; payload 0..70KiB incl. sizes that exactly fill the segment; SegmentSize in {1(clamped to 64KiB),64KiB,70000,128KiB,default}; BufferSize in {default,16,100,4096,64KiB}). Oracle: Replay/ReplaySegment of the intact log == appended (type,payload) list; then the segment being written is cut at EVERY offset 0..size when it is <= ExhLimit bytes (8KiB quick / 48KiB thorough) and at structural (each byte of the length header, type byte, CRC bytes of first/last records) + drawn offsets otherwise; after each cut VerifyDir+Open+Replay == records completely before the cut, and after appending one record + Close+Open, Replay == that prefix + the new record. static: all sequences of <=2 records over types{0..3} x sizes{0,1,5} and all 3-record sequences over sizes{0,1,5} with types 0,3,2, each without and with a Rotate before any record but the first, every cut offset. Non-trivial = the case contains a cut strictly inside a record (length header, type/payload or CRC) with >=1 complete record before it; distinct by case content.",
+		Rule: "gen: rapid-drawn WAL operation sequences (AppendRecords batches of 1-4 typed records, untyped Append, Rotate, SwitchSegment to a new id, SwitchSegment back to the newest non-empty segment, Sync, Close+Open; record types 0..3; payload 0..70KiB incl. sizes that exactly fill the segment; SegmentSize in {1(clamped to 64KiB),64KiB,70000,128KiB,default}; BufferSize in {default,16,100,4096,64KiB}). Oracle: Replay/ReplaySegment of the intact log == appended (type,payload) list; then the segment being written is cut at EVERY offset 0..size when it is <= ExhLimit bytes (8KiB quick / 32KiB thorough) and the work budget allows and at structural (each byte of the length header, type byte, CRC bytes of first/last records) + drawn offsets otherwise; after each cut VerifyDir+Open+Replay == records completely before the cut, and after appending one record + Close+Open, Replay == that prefix + the new record. static: all sequences of <=2 records over types{0..3} x sizes{0,1,5} and all 3-record sequences over sizes{0,1,5} with types 0,3,2, each without and with a Rotate before any record but the first, every cut offset. Non-trivial = the case contains a cut strictly inside a record (length header, type/payload or CRC) with >=1 complete record before it; distinct by case content.",
 		Assumptions: []string{
 			"SwitchSegment is used the way its callers use it: (id,true) only with a new id above every existing one (lsm.NewMemtable), (id,false) only to resume the newest non-empty segment while every higher segment is empty (lsm.recovery)",
 			"the torn segment is the one that was active when writing stopped; earlier segments are intact",
@@ -872,7 +870,7 @@ func TestCheck(t *testing.T) {
 			"record types are the four declared in wal/record.go",
 		},
 	}
-	pbt.Add(s, &pbt.Spec[Case]{Name: "wal", Gen: gen, Run: run, Static: enumerate, Quick: 256, Thorough: 8000, Shards: 8})
+	pbt.Add(s, &pbt.Spec[Case]{Name: "wal", Gen: gen, Run: run, Static: enumerate, Quick: 256, Thorough: 5000, Shards: 8})
 	s.Extra("static_domain_enumerated_completely", true)
 	s.Extra("truncation_offsets", "every offset 0..size for cut segments <= ExhLimit bytes (label cuts:exhaustive), structural+drawn otherwise (label cuts:sampled)")
 	s.Main(t)
